@@ -1,3 +1,164 @@
-"""Catalogue part B (format: entities.py, DSL: shapes.py)."""
+"""Catalogue part B (format: entities.py, DSL: shapes.py): protocol_groups, protocol_notifications.
+
+Grounding rules used here:
+  * iq results/errors carry id, type, from as the server sends them (class docstrings); `from` is the literal "g.us" where the
+    docstring says so, the group jid otherwise.
+  * <participant> children that a parser stores in a dict {jid: type} (group info, groups list, create notification) are
+    generated with pairwise distinct jids (PJID(1..3)): one member listed twice is not a valid stanza, and the dict would
+    merge the two.  Parsers that keep a list get a plain 1..4 repetition.
+  * `offline` is required ("0"/"1") where the class docstring and fixture show it (protocol_notifications) and optional where
+    the docstring omits it but the parser reads it (group notifications).
+"""
 from .entities import recv, send, exclude
 from .shapes import *  # noqa: F401,F403
+
+GROUPS = "yowsup.layers.protocol_groups.protocolentities"
+NOTIF = "yowsup.layers.protocol_notifications.protocolentities"
+
+# group id without server part ("49151234-1415389947"), as in <group id="..."> of create results / group lists
+GID = MAP(GJID, lambda j: j.split("@")[0], "GID")
+# key of a create notification: "{{owner_username}}-{{key}}@temp"
+TEMPKEY = MAP(GJID, lambda j: j.split("@")[0] + "@temp", "TEMPKEY")
+GSERVER = CONST("g.us")
+
+
+def PJID(i):
+    """user jids that differ between slots (first digit = slot number), for participants kept in a dict"""
+    return MAP(JID, lambda j, _i=i: "%d%s" % (_i, j), "PJID(%d)" % i)
+
+
+def distinct_participants(*types):
+    """0..3 <participant jid= [type=]> children with pairwise distinct jids"""
+    return [CH(N("participant", {"jid": PJID(i), "type": OPT(WORD(*types))}), 0, 1) for i in (1, 2, 3)]
+
+
+def group_attrs():
+    return {"id": GID, "creator": JID, "creation": TS, "subject": TEXT, "s_t": TS, "s_o": JID}
+
+
+# ---------------------------------------------------------------------------------------------- groups: requests
+exclude(GROUPS + ":GroupsIqProtocolEntity", "abstract base (xmlns w:g2) of the group iq requests; no layer builds or sends it")
+
+send(GROUPS + ":CreateGroupsIqProtocolEntity", [TEXT], {"participants": OPT(LIST(JID, 0, 4))},
+     owner="groups", module="groups", route="app",
+     notes="cli: CreateGroupsIqProtocolEntity(subject, participants=jids); jids may be the empty list")
+send(GROUPS + ":LeaveGroupsIqProtocolEntity", [ONEOF(GJID, LIST(GJID, 1, 4))],
+     owner="groups", module="groups", route="app",
+     notes="constructor wraps a single jid into a list; an empty list is rejected by an assert")
+send(GROUPS + ":ListGroupsIqProtocolEntity", [], {"groupsType": OPT(WORD("participating", "owning"))},
+     owner="groups", module="groups", route="app", notes="cli calls it without arguments (participating)")
+send(GROUPS + ":InfoGroupsIqProtocolEntity", [GJID],
+     owner="groups", module="groups", route="app",
+     notes="also created and sent through _sendIq by the axolotl send layer (group message without sender key)")
+send(GROUPS + ":SubjectGroupsIqProtocolEntity", [GJID, ONEOF(TEXT, TEXTDATA)],
+     owner="groups", module="groups", route="app",
+     notes="reply is a plain ResultIqProtocolEntity (protocol_iq). The subject becomes node data: the cli passes a str "
+           "(bytes under python 2), bytes is the only type ProtocolTreeNode accepts as data, so both are generated")
+send(GROUPS + ":ParticipantsGroupsIqProtocolEntity", [GJID, LIST(JID, 1, 4), WORD("add", "promote", "remove", "demote")],
+     owner="groups", module="groups", route="app",
+     notes="docstring describes a get/<list> request, the constructor builds a set iq with a <mode> child; it is the base of "
+           "add/promote/demote/remove but also listed in HANDLE and sent by the layer by itself (result -> ListParticipantsResult)")
+send(GROUPS + ":AddParticipantsIqProtocolEntity", [GJID, LIST(JID, 1, 4)], owner="groups", module="groups", route="app")
+send(GROUPS + ":PromoteParticipantsIqProtocolEntity", [GJID, LIST(JID, 1, 4)], owner="groups", module="groups", route="app",
+     notes="reply is a plain ResultIqProtocolEntity (protocol_iq)")
+send(GROUPS + ":DemoteParticipantsIqProtocolEntity", [GJID, LIST(JID, 1, 4)], owner="groups", module="groups", route="app",
+     notes="reply is a plain ResultIqProtocolEntity (protocol_iq)")
+send(GROUPS + ":RemoveParticipantsIqProtocolEntity", [GJID, LIST(JID, 1, 4)], owner="groups", module="groups", route="app")
+
+# ---------------------------------------------------------------------------------------------- groups: replies
+recv(GROUPS + ":SuccessCreateGroupsIqProtocolEntity",
+     N("iq", {"type": CONST("result"), "id": ID, "from": GSERVER},
+       children=[N("group", {"id": GID})]),
+     owner="groups", module="groups", route="reply", request="CreateGroupsIqProtocolEntity")
+recv(GROUPS + ":SuccessLeaveGroupsIqProtocolEntity",
+     N("iq", {"type": CONST("result"), "id": ID, "from": GSERVER},
+       children=[N("leave", {}, children=[N("group", {"id": GJID})])]),
+     owner="groups", module="groups", route="reply", request="LeaveGroupsIqProtocolEntity",
+     notes="docstring and parser know exactly one <group> inside <leave>")
+recv(GROUPS + ":SuccessAddParticipantsIqProtocolEntity",
+     N("iq", {"type": CONST("result"), "id": ID, "from": GJID},
+       children=[CH(N("add", {"type": CONST("success"), "participant": JID}), 1, 4)]),
+     owner="groups", module="groups", route="reply", request="AddParticipantsIqProtocolEntity",
+     notes="parser keeps only children with type=success; no other type value is documented")
+recv(GROUPS + ":FailureAddParticipantsIqProtocolEntity",
+     N("iq", {"type": CONST("error"), "id": ID, "from": GJID},
+       children=[N("error", {"text": WORD("item-not-found", "not-acceptable"), "code": WORD("404", "406"),
+                             "backoff": OPT(COUNT)})]),
+     owner="groups", module="groups", route="reply", request="AddParticipantsIqProtocolEntity",
+     notes="parsed by ErrorIqProtocolEntity: text/code values are the ones of the two docstrings, backoff is optional there")
+recv(GROUPS + ":SuccessRemoveParticipantsIqProtocolEntity",
+     N("iq", {"type": CONST("result"), "id": ID, "from": GJID},
+       children=[CH(N("remove", {"type": CONST("success"), "participant": JID}), 1, 4)]),
+     owner="groups", module="groups", route="reply", request="RemoveParticipantsIqProtocolEntity",
+     notes="parser keeps only children with type=success; no other type value is documented")
+recv(GROUPS + ":ListGroupsResultIqProtocolEntity",
+     N("iq", {"type": CONST("result"), "id": ID, "from": GSERVER},
+       children=[N("groups", {}, children=[CH(N("group", group_attrs(), children=distinct_participants("admin")), 0, 3)])]),
+     owner="groups", module="groups", route="reply", request="ListGroupsIqProtocolEntity")
+recv(GROUPS + ":ListParticipantsResultIqProtocolEntity",
+     N("iq", {"type": CONST("result"), "id": ID, "from": GJID},
+       children=[CH(N("participant", {"jid": JID}), 1, 4)]),
+     owner="groups", module="groups", route="reply", request="ParticipantsGroupsIqProtocolEntity")
+recv(GROUPS + ":InfoGroupsResultIqProtocolEntity",
+     N("iq", {"type": CONST("result"), "id": ID, "from": GJID},
+       children=[N("group", group_attrs(), children=distinct_participants("admin"))]),
+     owner="groups", module="groups", route="reply", request="InfoGroupsIqProtocolEntity",
+     notes="the axolotl send layer parses the same result internally when it requested the info itself")
+
+# ---------------------------------------------------------------------------------------------- groups: notifications
+exclude(GROUPS + ":GroupsNotificationProtocolEntity",
+        "base class of the w:gp2 notifications; the layer only builds the subject/create/add/remove subclasses")
+
+
+def gp2_attrs(**extra):
+    a = {"id": ID, "from": GJID, "type": CONST("w:gp2"), "t": TS, "notify": TEXT, "participant": JID,
+         "offline": OPT(WORD("0", "1"))}
+    a.update(extra)
+    return a
+
+
+recv(GROUPS + ":SubjectGroupsNotificationProtocolEntity",
+     N("notification", gp2_attrs(),
+       children=[N("subject", {"s_t": TS, "s_o": JID, "subject": TEXT})]),
+     owner="groups", module="groups", route="unsolicited",
+     notes="offline is not in the docstring but read by the parser (NotificationProtocolEntity)")
+recv(GROUPS + ":CreateGroupsNotificationProtocolEntity",
+     N("notification", gp2_attrs(),
+       children=[N("create", {"type": CONST("new"), "key": TEMPKEY},
+                   children=[N("group", group_attrs(), children=distinct_participants("admin", "superadmin"))])]),
+     owner="groups", module="groups", route="unsolicited")
+recv(GROUPS + ":AddGroupsNotificationProtocolEntity",
+     N("notification", gp2_attrs(),
+       children=[N("add", {}, children=[CH(N("participant", {"jid": JID}), 1, 4)])]),
+     owner="groups", module="groups", route="unsolicited")
+recv(GROUPS + ":RemoveGroupsNotificationProtocolEntity",
+     N("notification", gp2_attrs(mode=OPT(CONST("none"))),
+       children=[N("remove", {"subject": TEXT}, children=[CH(N("participant", {"jid": JID}), 1, 4)])]),
+     owner="groups", module="groups", route="unsolicited",
+     notes="mode=\"none\" is in the docstring but the parser never reads it")
+
+# ---------------------------------------------------------------------------------------------- notifications
+exclude(NOTIF + ":NotificationProtocolEntity",
+        "base class; the notifications layer only builds the picture/status subclasses (axolotl and contacts entities reuse its parser)")
+exclude(NOTIF + ":PictureNotificationProtocolEntity",
+        "abstract base of the set/delete picture notifications (no child, constructor calls an undefined setData); "
+        "the layer raises for a picture notification that is neither set nor delete")
+
+
+def notif_attrs(_type, _from):
+    return {"id": ID, "from": _from, "type": CONST(_type), "t": TS, "notify": TEXT, "offline": WORD("0", "1")}
+
+
+recv(NOTIF + ":SetPictureNotificationProtocolEntity",
+     N("notification", notif_attrs("picture", AJID),
+       children=[N("set", {"jid": AJID, "id": ID})]),
+     owner="notifications", module="basic", route="unsolicited",
+     notes="the layer also sends an ack for every notification")
+recv(NOTIF + ":DeletePictureNotificationProtocolEntity",
+     N("notification", notif_attrs("picture", AJID),
+       children=[N("delete", {"jid": AJID})]),
+     owner="notifications", module="basic", route="unsolicited")
+recv(NOTIF + ":StatusNotificationProtocolEntity",
+     N("notification", notif_attrs("status", JID),
+       children=[N("set", {}, data=TEXTDATA)]),
+     owner="notifications", module="basic", route="unsolicited")
